@@ -92,50 +92,62 @@ Lemma repeat_eq_cons {A} (x y : A) k l : y :: l = repeat x k -> y = x /\ exists 
 Proof. destruct k; [discriminate|]. cbn. intros H. inversion H. split; [reflexivity|]. exists k. split; reflexivity. Qed.
 
 (* all of the remaining names are empty: every remaining parameter is an omitted optional or an empty variadic *)
-Lemma bind_all_empty nm : (forall v, nm v <> EmptyString) -> forall sl al k,
+Lemma bind_all_empty nm : forall sl al k,
+  (forall v, In v (all_vars al) -> nm v <> EmptyString) ->
   variadic_last sl = true -> args_ok sl al = true ->
   names_of nm (flatten sl al) = repeat EmptyString k ->
   bind_slots sl [] = Some (map (amap nm) al).
 Proof.
-  intros Hnm. induction sl as [|[key kd] sl IH]; intros al k Hv Ha Hn.
+  induction sl as [|[key kd] sl IH]; intros al k Hnm Hv Ha Hn.
   - destruct al; [reflexivity|discriminate].
   - destruct al as [|a al]; [discriminate|]. cbn [args_ok snd] in Ha. apply andb_prop in Ha. destruct Ha as [Hk Ha].
     cbn [flatten fst] in Hn. rewrite names_of_app in Hn.
-    destruct kd, a; try discriminate; cbn [flatten1 names_of map snd app] in Hn.
-    + (* single *) apply repeat_eq_cons in Hn. destruct Hn as [Hn _]. exfalso. exact (Hnm _ Hn).
+    assert (Hnm1 : forall v, In v (arg_vars a) -> nm v <> EmptyString)
+      by (intros v Hin; apply Hnm; unfold all_vars; cbn [flat_map]; apply in_or_app; left; exact Hin).
+    assert (Hnm2 : forall v, In v (all_vars al) -> nm v <> EmptyString)
+      by (intros v Hin; apply Hnm; unfold all_vars; cbn [flat_map]; apply in_or_app; right; exact Hin).
+    destruct kd, a; try discriminate; cbn [flatten1] in Hn;
+      [unfold names_of at 1 in Hn; cbn [map snd app] in Hn ..|].
+    + (* single *) apply repeat_eq_cons in Hn. destruct Hn as [Hn _]. exfalso. apply (Hnm1 v); [left; reflexivity|exact Hn].
     + (* optional *) destruct o as [v|].
-      * apply repeat_eq_cons in Hn. destruct Hn as [Hn _]. exfalso. exact (Hnm _ Hn).
+      * apply repeat_eq_cons in Hn. destruct Hn as [Hn _]. exfalso. apply (Hnm1 v); [left; reflexivity|exact Hn].
       * apply repeat_eq_cons in Hn. destruct Hn as [_ [k' [_ Hn]]].
-        cbn [bind_slots variadic_last] in *. rewrite (IH al k' Hv Ha Hn). reflexivity.
+        cbn [bind_slots variadic_last] in *. rewrite (IH al k' Hnm2 Hv Ha Hn). reflexivity.
     + (* variadic: last *) cbn [variadic_last] in Hv. destruct sl; [|discriminate].
       destruct al; [|discriminate]. cbn [flatten] in Hn. rewrite app_nil_r in Hn.
       rewrite names_of_enum in Hn. destruct l as [|v l].
       * reflexivity.
-      * cbn [map] in Hn. apply repeat_eq_cons in Hn. destruct Hn as [Hn _]. exfalso. exact (Hnm _ Hn).
+      * cbn [map] in Hn. apply repeat_eq_cons in Hn. destruct Hn as [Hn _]. exfalso. apply (Hnm1 v); [left; reflexivity|exact Hn].
 Qed.
 
 (* the general round trip: any prefix of the full name list whose removed part consists of empty names binds back to
    the arguments *)
-Lemma bind_prefix nm : (forall v, nm v <> EmptyString) -> forall sl al p k,
+Lemma bind_prefix nm : forall sl al p k,
+  (forall v, In v (all_vars al) -> nm v <> EmptyString) ->
   variadic_last sl = true -> args_ok sl al = true ->
   names_of nm (flatten sl al) = p ++ repeat EmptyString k ->
   bind_slots sl p = Some (map (amap nm) al).
 Proof.
-  intros Hnm. induction sl as [|[key kd] sl IH]; intros al p k Hv Ha Hn.
+  induction sl as [|[key kd] sl IH]; intros al p k Hnm Hv Ha Hn.
   - destruct al; [|discriminate]. cbn in Hn. destruct p; [reflexivity|discriminate].
   - destruct p as [|x p].
-    { cbn [app] in Hn. exact (bind_all_empty nm Hnm _ _ _ Hv Ha Hn). }
+    { cbn [app] in Hn. exact (bind_all_empty nm _ _ _ Hnm Hv Ha Hn). }
     destruct al as [|a al]; [discriminate|]. pose proof Ha as Ha0.
     cbn [args_ok snd] in Ha. apply andb_prop in Ha. destruct Ha as [Hk Ha].
     cbn [flatten fst] in Hn. rewrite names_of_app in Hn.
-    destruct kd, a; try discriminate; cbn [flatten1 names_of map snd app] in Hn.
+    assert (Hnm1 : forall v, In v (arg_vars a) -> nm v <> EmptyString)
+      by (intros v Hin; apply Hnm; unfold all_vars; cbn [flat_map]; apply in_or_app; left; exact Hin).
+    assert (Hnm2 : forall v, In v (all_vars al) -> nm v <> EmptyString)
+      by (intros v Hin; apply Hnm; unfold all_vars; cbn [flat_map]; apply in_or_app; right; exact Hin).
+    destruct kd, a; try discriminate; cbn [flatten1] in Hn;
+      [unfold names_of at 1 in Hn; cbn [map snd app] in Hn ..|].
     + (* single *) inversion Hn as [[Hx Hr]]. cbn [bind_slots variadic_last] in *.
-      destruct (is_empty (nm v)) eqn:E; [apply is_empty_true in E; exfalso; exact (Hnm _ E)|].
-      fold (names_of nm (flatten sl al)) in Hr. rewrite (IH al p k Hv Ha Hr). reflexivity.
+      destruct (is_empty (nm v)) eqn:E; [apply is_empty_true in E; exfalso; apply (Hnm1 v); [left; reflexivity|exact E]|].
+      rewrite (IH al p k Hnm2 Hv Ha Hr). reflexivity.
     + (* optional *) inversion Hn as [[Hx Hr]]. cbn [bind_slots variadic_last] in *.
-      fold (names_of nm (flatten sl al)) in Hr. rewrite (IH al p k Hv Ha Hr). cbn [option_map map amap].
+      rewrite (IH al p k Hnm2 Hv Ha Hr). cbn [option_map map amap].
       destruct o as [v|]; cbn [option_map].
-      * destruct (is_empty (nm v)) eqn:E; [apply is_empty_true in E; exfalso; exact (Hnm _ E)|reflexivity].
+      * destruct (is_empty (nm v)) eqn:E; [apply is_empty_true in E; exfalso; apply (Hnm1 v); [left; reflexivity|exact E]|reflexivity].
       * reflexivity.
     + (* variadic *) cbn [variadic_last] in Hv. destruct sl; [|discriminate]. destruct al; [|discriminate].
       cbn [flatten] in Hn. rewrite app_nil_r in Hn. rewrite names_of_enum in Hn.
@@ -143,26 +155,26 @@ Proof.
       * cbn [repeat] in Hn. rewrite app_nil_r in Hn. rewrite Hn. reflexivity.
       * exfalso. assert (Hin : In EmptyString (map nm l)).
         { rewrite Hn. apply in_or_app. right. left. reflexivity. }
-        apply in_map_iff in Hin. destruct Hin as [v [Hv' _]]. exact (Hnm _ Hv').
+        apply in_map_iff in Hin. destruct Hin as [v [Hv' Hv'']]. exact (Hnm1 v Hv'' Hv').
 Qed.
 
 Theorem inputs_roundtrip nm nn bs c :
-  (forall v, nm v <> EmptyString) ->
+  (forall v, In v (all_vars (c_ins c)) -> nm v <> EmptyString) ->
   variadic_last (s_ins (c_sig c)) = true -> args_ok (s_ins (c_sig c)) (c_ins c) = true ->
   bind_slots (s_ins (c_sig c)) (n_inputs (emit nm nn bs c)) = Some (map (amap nm) (c_ins c)).
 Proof.
   intros Hnm Hv Ha. cbn [emit n_inputs].
   destruct (trim_spec (min_in c) (names_of nm (in_flat c))) as [k Hk].
-  exact (bind_prefix nm Hnm _ _ _ k Hv Ha Hk).
+  exact (bind_prefix nm _ _ _ k Hnm Hv Ha Hk).
 Qed.
 Theorem outputs_roundtrip nm nn bs c :
-  (forall v, nm v <> EmptyString) ->
+  (forall v, In v (all_vars (c_outs c)) -> nm v <> EmptyString) ->
   variadic_last (s_outs (c_sig c)) = true -> args_ok (s_outs (c_sig c)) (c_outs c) = true ->
   bind_slots (s_outs (c_sig c)) (n_outputs (emit nm nn bs c)) = Some (map (amap nm) (c_outs c)).
 Proof.
   intros Hnm Hv Ha. cbn [emit n_outputs].
   destruct (trim_spec (min_out c) (names_of nm (out_flat c))) as [k Hk].
-  exact (bind_prefix nm Hnm _ _ _ k Hv Ha Hk).
+  exact (bind_prefix nm _ _ _ k Hnm Hv Ha Hk).
 Qed.
 
 (* the emitted list is the canonical one: a prefix of the full positional list that differs from it by trailing
@@ -191,16 +203,28 @@ Qed.
 (* ------------------------------------------------------------------------------------------------ outputs are all materialised *)
 Lemma init_outputs_ok sl k f : args_ok sl (init_outputs sl k f) = true.
 Proof. revert f. induction sl as [|[key kd] sl IH]; intros f; [reflexivity|]. destruct kd; cbn; apply IH. Qed.
-Lemma init_outputs_names nm sl k f x :
-  (forall v, nm v <> EmptyString) -> In x (names_of nm (flatten sl (init_outputs sl k f))) -> x <> EmptyString.
+Definition all_present (al : list (arg nat)) : bool :=
+  forallb (fun a => match a with AOpt None => false | _ => true end) al.
+Lemma present_names_nonempty nm : forall sl al,
+  (forall v, In v (all_vars al) -> nm v <> EmptyString) -> all_present al = true ->
+  forall x, In x (names_of nm (flatten sl al)) -> x <> EmptyString.
 Proof.
-  intros Hnm. revert f. induction sl as [|[key kd] sl IH]; intros f Hin; [destruct Hin|].
-  destruct kd; cbn [init_outputs flatten fst] in Hin; rewrite names_of_app in Hin; apply in_app_or in Hin;
-    destruct Hin as [Hin|Hin]; try exact (IH _ Hin).
-  - cbn in Hin. destruct Hin as [<-|[]]. apply Hnm.
-  - cbn in Hin. destruct Hin as [<-|[]]. apply Hnm.
-  - cbn [flatten1] in Hin. rewrite names_of_enum in Hin. apply in_map_iff in Hin. destruct Hin as [v [<- _]]. apply Hnm.
+  induction sl as [|[key kd] sl IH]; intros al Hnm Hp x Hin; [destruct Hin|].
+  destruct al as [|a al]; [destruct Hin|]. cbn [flatten fst] in Hin. rewrite names_of_app in Hin.
+  cbn [all_present forallb] in Hp. apply andb_prop in Hp. destruct Hp as [Hp1 Hp2].
+  assert (Hnm1 : forall v, In v (arg_vars a) -> nm v <> EmptyString)
+    by (intros v Hv; apply Hnm; unfold all_vars; cbn [flat_map]; apply in_or_app; left; exact Hv).
+  assert (Hnm2 : forall v, In v (all_vars al) -> nm v <> EmptyString)
+    by (intros v Hv; apply Hnm; unfold all_vars; cbn [flat_map]; apply in_or_app; right; exact Hv).
+  apply in_app_or in Hin. destruct Hin as [Hin|Hin]; [|exact (IH al Hnm2 Hp2 x Hin)].
+  destruct a as [v|[v|]|l]; cbn [flatten1] in Hin.
+  - cbn in Hin. destruct Hin as [<-|[]]. apply Hnm1. left; reflexivity.
+  - cbn in Hin. destruct Hin as [<-|[]]. apply Hnm1. left; reflexivity.
+  - discriminate.
+  - rewrite names_of_enum in Hin. apply in_map_iff in Hin. destruct Hin as [v [<- Hv]]. apply Hnm1. exact Hv.
 Qed.
+Lemma init_outputs_present sl k f : all_present (init_outputs sl k f) = true.
+Proof. revert f. induction sl as [|[key kd] sl IH]; intros f; [reflexivity|]. destruct kd; cbn; apply IH. Qed.
 Fixpoint declared_count (sl : list slot) (k : nat) : nat :=
   match sl with [] => 0 | (_, KVariadic) :: t => k + declared_count t k | _ :: t => S (declared_count t k) end.
 Lemma init_outputs_count sl k f : List.length (flatten sl (init_outputs sl k f)) = declared_count sl k.
@@ -211,16 +235,16 @@ Proof.
 Qed.
 (* a node whose outputs were created by _init_output_vars names every declared output: nothing is omitted, nothing trimmed *)
 Theorem outputs_all_emitted nm nn bs c k f :
-  (forall v, nm v <> EmptyString) -> c_outs c = init_outputs (s_outs (c_sig c)) k f ->
+  (forall v, In v (all_vars (c_outs c)) -> nm v <> EmptyString) -> c_outs c = init_outputs (s_outs (c_sig c)) k f ->
   n_outputs (emit nm nn bs c) = names_of nm (out_flat c) /\
   List.length (n_outputs (emit nm nn bs c)) = declared_count (s_outs (c_sig c)) k /\
   (forall x, In x (n_outputs (emit nm nn bs c)) -> x <> EmptyString).
 Proof.
-  intros Hnm Ho. cbn [emit n_outputs]. unfold out_flat. rewrite Ho.
-  assert (H : forall x, In x (names_of nm (flatten (s_outs (c_sig c)) (init_outputs (s_outs (c_sig c)) k f))) -> x <> EmptyString)
-    by (intros x; apply init_outputs_names; exact Hnm).
+  intros Hnm Ho. cbn [emit n_outputs]. unfold out_flat.
+  assert (H : forall x, In x (names_of nm (flatten (s_outs (c_sig c)) (c_outs c))) -> x <> EmptyString).
+  { apply present_names_nonempty; [exact Hnm|]. rewrite Ho. apply init_outputs_present. }
   rewrite (trim_no_empty _ _ H). split; [reflexivity|]. split; [|exact H].
-  unfold names_of. rewrite map_length. apply init_outputs_count.
+  unfold names_of. rewrite map_length, Ho. apply init_outputs_count.
 Qed.
 
 (* ------------------------------------------------------------------------------------------------ generic nodes: nothing trimmed *)
@@ -512,6 +536,47 @@ Proof.
   destruct (initializers_only _ _ _ _ Hin) as [v [H1 H2]]. exists v. split; [apply somes_in; exact H1|exact H2].
 Qed.
 
+Lemma all_vars_in_somes : forall sl (al : list (arg nat)) v,
+  args_ok sl al = true -> In v (all_vars al) -> In v (map snd (somes (flatten sl al))).
+Proof.
+  induction sl as [|[key kd] sl IH]; intros al v Ha Hin; destruct al as [|a al]; try discriminate; [destruct Hin|].
+  cbn [args_ok snd] in Ha. apply andb_prop in Ha. destruct Ha as [_ Ha].
+  unfold all_vars in Hin. cbn [flat_map] in Hin. apply in_app_or in Hin. cbn [flatten fst].
+  assert (Hs : forall (x y : list (string * option nat)), somes (x ++ y) = somes x ++ somes y).
+  { induction x as [|[k0 [w|]] x IHx]; intros y; cbn [app somes]; [reflexivity|rewrite IHx; reflexivity|apply IHx]. }
+  rewrite Hs, map_app. apply in_or_app. destruct Hin as [Hin|Hin]; [left|right; apply IH; assumption].
+  destruct a as [w|[w|]|l]; cbn [arg_vars flatten1] in *.
+  - destruct Hin as [<-|[]]. left; reflexivity.
+  - destruct Hin as [<-|[]]. left; reflexivity.
+  - destruct Hin.
+  - generalize 0. induction l as [|w l IHl]; intros i; [destruct Hin|]. cbn [enum_from somes map snd].
+    destruct Hin as [<-|Hin]; [left; reflexivity|right; apply IHl; exact Hin].
+Qed.
+
+(* the round trip for the one-node model that inference sees *)
+Theorem singleton_roundtrip c :
+  keys_ok c = true -> call_ok c = true -> some_input_untyped c = false ->
+  variadic_last (s_ins (c_sig c)) = true -> variadic_last (s_outs (c_sig c)) = true ->
+  exists sc m, singleton c = SOk m /\
+    bind_slots (s_ins (c_sig c)) (n_inputs (m_node m)) = Some (map (amap (nm_of sc)) (c_ins c)) /\
+    bind_slots (s_outs (c_sig c)) (n_outputs (m_node m)) = Some (map (amap (nm_of sc)) (c_outs c)) /\
+    (forall v w, In v (all_vars (c_ins c) ++ all_vars (c_outs c)) -> In w (all_vars (c_ins c) ++ all_vars (c_outs c)) ->
+                 nm_of sc v = nm_of sc w -> v = w).
+Proof.
+  intros Hk Hc Hu Hvi Hvo. destruct (singleton_ok c Hk Hu) as [sc [m [Hsc [Hm [Hn _]]]]].
+  unfold call_ok in Hc. apply andb_prop in Hc. destruct Hc as [Hci Hco].
+  assert (Hall : forall v, In v (all_vars (c_ins c) ++ all_vars (c_outs c)) ->
+                 In v (map snd (somes (in_flat c) ++ somes (out_flat c)))).
+  { intros v Hv. rewrite map_app. apply in_or_app. apply in_app_or in Hv.
+    destruct Hv as [Hv|Hv]; [left|right]; eapply all_vars_in_somes; eassumption. }
+  exists sc, m. split; [exact Hm|]. rewrite Hn. split; [|split].
+  - apply inputs_roundtrip; try assumption. intros v Hv. apply (singleton_names_nonempty c sc Hk Hsc).
+    apply Hall. apply in_or_app. left. exact Hv.
+  - apply outputs_roundtrip; try assumption. intros v Hv. apply (singleton_names_nonempty c sc Hk Hsc).
+    apply Hall. apply in_or_app. right. exact Hv.
+  - intros v w Hv Hw. apply (singleton_names_injective c sc Hk Hsc); apply Hall; assumption.
+Qed.
+
 (* dummy subgraphs carry exactly the requested argument / result types *)
 Lemma dummy_infos_types p i tys : map snd (dummy_infos p i tys) = map to_onnx tys.
 Proof. revert i. induction tys; intros; cbn; [reflexivity|f_equal; auto]. Qed.
@@ -596,4 +661,134 @@ Proof.
   induction t as [e [sh|]|t IH|t IH]; cbn [no_invented strip option_map]; try assumption; try reflexivity.
   apply forallb_forall. intros d Hd. apply in_map_iff in Hd. destruct Hd as [d0 [<- _]].
   unfold strip_dim. destruct (is_invented d0) eqn:E; [reflexivity|rewrite E; reflexivity].
+Qed.
+
+(* ------------------------------------------------------------------------------------------------ composite outcome theorem *)
+Theorem reject_iff_infer_rejects (E : Type) c :
+  keys_ok c = true -> some_input_untyped c = false ->
+  exists m, singleton c = SOk m /\
+    forall infer : smodel -> E + list (string * option oty),
+      (forall e, call_outcome infer c = Raised e <-> infer m = inl e) /\
+      (forall infos, infer m = inr infos ->
+         call_outcome infer c =
+         match results_of infos [] with
+         | None => RaisedOther
+         | Some r => Returned (map (fun k => (k, option_map strip (dict_get r k))) (out_keys c))
+         end).
+Proof.
+  intros Hk Hu. destruct (singleton_ok c Hk Hu) as [sc [m [_ [Hm _]]]]. exists m. split; [exact Hm|].
+  intros infer. pose proof (typed_call_outcome E c m Hu Hm infer) as H. split.
+  - intros e. rewrite H. destruct (infer m) as [e'|infos].
+    + split; intros H'; inversion H'; reflexivity.
+    + split; [|discriminate]. destruct (results_of infos []); discriminate.
+  - intros infos Hi. rewrite H, Hi. reflexivity.
+Qed.
+
+(* results_of fails only on a TypeProto that is not tensor / sequence / optional *)
+Fixpoint convertible (t : oty) : bool :=
+  match t with OTensor _ _ => true | OSeq t' | OOpt t' => convertible t' | OOther => false end.
+Lemma from_onnx_convertible t : convertible t = true -> exists ty, from_onnx t = Some ty.
+Proof.
+  induction t as [e sh|t IH|t IH|]; cbn; intros H; [eexists; reflexivity| | |discriminate];
+    destruct (IH H) as [ty Hty]; rewrite Hty; eexists; reflexivity.
+Qed.
+Lemma results_of_ok infos : forall acc,
+  (forall k o, In (k, Some o) infos -> convertible o = true) -> exists r, results_of infos acc = Some r.
+Proof.
+  induction infos as [|[k [o|]] infos IH]; intros acc H; cbn [results_of]; [eexists; reflexivity| |].
+  - destruct (from_onnx_convertible o) as [ty Hty]; [eapply H; left; reflexivity|]. rewrite Hty.
+    apply IH. intros k' o' Hin. eapply H. right. exact Hin.
+  - apply IH. intros k' o' Hin. eapply H. right. exact Hin.
+Qed.
+
+(* F20: a node built by a constructor names all its declared outputs, so the one-output form of an operator with
+   optional outputs cannot be expressed; ONNX's rule for BatchNormalization in inference mode then rejects EVERY call *)
+Definition bn_sig : sig :=
+  {| s_op := "BatchNormalization"; s_domain := ""; s_version := 15%N;
+     s_ins := [("X", KSingle); ("scale", KSingle); ("B", KSingle); ("input_mean", KSingle); ("input_var", KSingle)]%string;
+     s_outs := [("Y", KSingle); ("running_mean", KOptional); ("running_var", KOptional)]%string;
+     s_min := Some (5, 1) |}.
+Definition bn_call (env : list (nat * vinfo)) (training_mode : string) : call :=
+  {| c_sig := bn_sig; c_ins := [ASingle 0; ASingle 1; ASingle 2; ASingle 3; ASingle 4];
+     c_outs := init_outputs (s_outs bn_sig) 0 5;
+     c_attrs := [ {| a_key := "epsilon"; a_set := Some ("epsilon", AvData 1 "1e-05") |};
+                  {| a_key := "momentum"; a_set := Some ("momentum", AvData 1 "0.9") |};
+                  {| a_key := "training_mode"; a_set := Some ("training_mode", AvData 2 training_mode) |} ]%string;
+     c_env := env |}.
+(* ONNX: "This number of op outputs should be 1 when Training_mode = False" *)
+Definition bn_rule {E} (infer : smodel -> E + list (string * option oty)) (e0 : E) : Prop :=
+  forall m, n_op (m_node m) = "BatchNormalization"%string ->
+            In ("training_mode"%string, OvData 2 "0") (n_attrs (m_node m)) ->
+            List.length (n_outputs (m_node m)) <> 1 -> infer m = inl e0.
+Definition typed_env (n : nat) : list (nat * vinfo) :=
+  map (fun i => (i, {| vi_ty := Some (TTensor 1 (Some [DInt 2%Z; DInt 3%Z])); vi_const := None |})) (seq 0 n).
+Theorem batchnorm_inference_mode_refuted :
+  forall E (infer : smodel -> E + list (string * option oty)) e0, bn_rule infer e0 ->
+  call_outcome infer (bn_call (typed_env 5) "0") = Raised e0.
+Proof.
+  intros E infer e0 Hr. unfold call_outcome, infer_output_types.
+  change (some_input_untyped (bn_call (typed_env 5) "0")) with false.
+  destruct (singleton (bn_call (typed_env 5) "0")) as [m| |] eqn:Hs; try (vm_compute in Hs; discriminate).
+  vm_compute in Hs. inversion Hs; subst m. rewrite Hr; [reflexivity|reflexivity| |].
+  - cbn. right. right. left. reflexivity.
+  - cbn. discriminate.
+Qed.
+
+(* ------------------------------------------------------------------------------------------------ examples (non-vacuity) *)
+Definition ex_env : list (nat * vinfo) :=
+  [ (0, {| vi_ty := Some (TTensor 1 (Some [DInt 2%Z; DSym "N"; DUnk])); vi_const := None |});
+    (1, {| vi_ty := Some (TTensor 1 (Some [])); vi_const := Some "f32[]:3f800000"%string |}) ].
+(* clip(x, None, hi): inner omitted optional stays as "", the present last one is kept *)
+Definition ex_clip (mn mx : option nat) : call :=
+  {| c_sig := {| s_op := "Clip"; s_domain := ""; s_version := 13%N;
+                 s_ins := [("input", KSingle); ("min", KOptional); ("max", KOptional)]%string;
+                 s_outs := [("output", KSingle)]%string; s_min := Some (1, 1) |};
+     c_ins := [ASingle 0; AOpt mn; AOpt mx]; c_outs := [ASingle 7]; c_attrs := []; c_env := ex_env |}.
+Example clip_inner_omitted :
+  keys_ok (ex_clip None (Some 1)) = true /\ call_ok (ex_clip None (Some 1)) = true /\
+  some_input_untyped (ex_clip None (Some 1)) = false /\
+  exists m, singleton (ex_clip None (Some 1)) = SOk m /\
+    n_inputs (m_node m) = ["input"; ""; "max"]%string /\ m_inits m = [("max", "f32[]:3f800000")]%string /\
+    bind_slots (s_ins (c_sig (ex_clip None (Some 1)))) (n_inputs (m_node m)) = Some [ASingle "input"; AOpt None; AOpt (Some "max")]%string.
+Proof. repeat (split; [reflexivity|]). eexists. split; [vm_compute; reflexivity|]. repeat split. Qed.
+Example clip_trailing_trimmed :
+  exists m, singleton (ex_clip None None) = SOk m /\ n_inputs (m_node m) = ["input"]%string.
+Proof. eexists. split; [vm_compute; reflexivity|reflexivity]. Qed.
+(* one Var in two slots: first key wins, both value infos and both initializers are present *)
+Example same_var_twice :
+  exists m, singleton (ex_clip (Some 1) (Some 1)) = SOk m /\ n_inputs (m_node m) = ["input"; "min"; "min"]%string /\
+    m_inits m = [("min", "f32[]:3f800000"); ("max", "f32[]:3f800000")]%string /\
+    map fst (m_inputs m) = ["input"; "min"; "max"]%string.
+Proof. eexists. split; [vm_compute; reflexivity|]. repeat split. Qed.
+(* Loop-like: optionals before a variadic, min_input = 2: nothing may be trimmed; variadic keys v_0 .. v_11 in numeric order *)
+Definition ex_loop (n : nat) : call :=
+  {| c_sig := {| s_op := "Loop"; s_domain := ""; s_version := 16%N;
+                 s_ins := [("M", KOptional); ("cond", KOptional); ("v_initial", KVariadic)]%string;
+                 s_outs := [("v_final_and_scan_outputs", KVariadic)]%string; s_min := Some (2, 1) |};
+     c_ins := [AOpt None; AOpt None; AVariadic (repeat 0 n)]; c_outs := init_outputs [("v_final_and_scan_outputs", KVariadic)]%string n 20;
+     c_attrs := [ {| a_key := "body"; a_set := Some ("ignored", AvGraph [TTensor 7 (Some []); TTensor 9 (Some [])] [TTensor 9 (Some [])]) |} ]%string;
+     c_env := ex_env |}.
+Example loop_untrimmed_and_ordered :
+  (exists m, singleton (ex_loop 0) = SOk m /\ n_inputs (m_node m) = [""; ""]%string) /\
+  (exists m, singleton (ex_loop 12) = SOk m /\
+     map fst (m_inputs m) = ["v_initial_0"; "v_initial_1"; "v_initial_2"; "v_initial_3"; "v_initial_4"; "v_initial_5";
+                             "v_initial_6"; "v_initial_7"; "v_initial_8"; "v_initial_9"; "v_initial_10"; "v_initial_11"]%string /\
+     List.length (n_outputs (m_node m)) = 12 /\ map fst (n_attrs (m_node m)) = ["body"]%string).
+Proof. split; eexists; (split; [vm_compute; reflexivity|]); repeat split. Qed.
+Example strip_example :
+  strip (TTensor 1 (Some [DInt 2%Z; DSym "unk__3"; DSym "N"; DSym "unknown"; DUnk])) = TTensor 1 (Some [DInt 2%Z; DUnk; DSym "N"; DSym "unknown"; DUnk]).
+Proof. reflexivity. Qed.
+
+Lemma onnx_shape_opt_variadic_last sl : onnx_shape_opt sl = true -> variadic_last sl = true.
+Proof.
+  induction sl as [|[k kd] sl IH]; [reflexivity|]. destruct kd; cbn [onnx_shape_opt variadic_last]; try discriminate.
+  - exact IH.
+  - destruct sl; [reflexivity|discriminate].
+Qed.
+Lemma onnx_shape_variadic_last sl : onnx_shape sl = true -> variadic_last sl = true.
+Proof.
+  induction sl as [|[k kd] sl IH]; [reflexivity|]. destruct kd; cbn [onnx_shape].
+  - exact IH.
+  - apply onnx_shape_opt_variadic_last.
+  - apply onnx_shape_opt_variadic_last.
 Qed.
